@@ -15,6 +15,8 @@ pub struct PortTiming {
     pub due: [Option<u128>; 4], // ann, sync, delay, rcpt — simulated ns
     /// the port has been Faulty since its receipt timer was last armed
     pub tainted: bool,
+    /// the receipt timer was armed at a moment the port was seen Faulty (so only the library can have lost it since)
+    pub armed_at_fault: bool,
 }
 
 #[derive(Default)]
@@ -153,6 +155,9 @@ impl Timed {
         for (i, st) in states.iter().enumerate() {
             let Some(p) = self.ports.get_mut(i) else { continue };
             if *st == "Faulty" {
+                if !p.tainted {
+                    p.armed_at_fault = p.due[3].is_some();
+                }
                 p.tainted = true;
                 continue;
             }
@@ -167,7 +172,9 @@ impl Timed {
             };
             for &k in needs {
                 if p.due[k].is_none() {
-                    if p.tainted && k == 3 {
+                    if p.tainted && k == 3 && p.armed_at_fault {
+                        out.oracle("C12", "receipt-timer-lost-while-faulty", &format!("{line} -> port {} is {st} after a peer-delay fault; its announce receipt timer was armed when the fault hit, fired while the port was Faulty and was not armed again: nothing will ever move the port", i + 1));
+                    } else if p.tainted && k == 3 {
                         out.oracle("C12", "recovered-port-receipt-timer-not-armed", &format!("{line} -> port {} is {st} after a peer-delay fault and its announce receipt timer is not armed: nothing will ever move it", i + 1));
                     } else {
                         out.oracle("C12", "port-waits-on-unarmed-timer", &format!("{line} -> port {} is {st} but its {} timer is not armed", i + 1, KINDS[k]));
